@@ -3,6 +3,7 @@ import Gv.Model.Fmt.Nexus
 import Gv.Proofs.StockholmRT
 import Gv.Model.Fmt.Auto
 import Gv.Proofs.NexusRT
+import Gv.Proofs.PhylipRT3
 /-!
 C02 — every alignment format round-trips losslessly through writer and parser.
 
@@ -643,5 +644,113 @@ theorem roundtrip_nexus (f : Nexus.Facts) (o : POpts) (ho : normAlphabet o.alpha
     | inr e => simp [Bag.finish, Bag.detect, e, BOTH, AMINOACIDS, NUCLEOTIDS, UNKNOWN]
 
 end NexusRT
+
+/-! ## Phylip -/
+
+section PhylipRT
+open Gv.Proofs.PhylipRT
+open Gv.Spec.Fmt (reprPhylip)
+
+private theorem ph_name_byte : ∀ b : Byte, isPrintable b = true →
+    Phylip.identChar b = true ∧ Phylip.isWS b = false := by decide
+
+private theorem ph_residue_byte : ∀ b : Byte, (isNt b || isSpecial b) = true ∨ (isAa b || isSpecial b) = true →
+    Phylip.identChar b = true ∧ Phylip.isWS b = false ∧ Phylip.isDigit b = false ∧ b ≠ 43 := by decide
+
+/-- what `reprPhylip` gives row by row -/
+private theorem ph_repr_rows (strict : Bool) (rows : List XRow) (h : reprPhylip strict rows = true) :
+    rows ≠ [] ∧ ∃ L, 1 ≤ L ∧ (∀ r ∈ rows, RowOk strict L r) ∧ distinct (rows.map (·.1)) = true := by
+  simp only [reprPhylip, reprBase, Bool.and_eq_true, Bool.or_eq_true, Bool.not_eq_true'] at h
+  obtain ⟨⟨⟨⟨hrect, hres⟩, hdist⟩, hnames⟩, hstrict⟩ := h
+  cases rows with
+  | nil => simp [rectangular] at hrect
+  | cons r0 rs =>
+    simp only [rectangular, Bool.and_eq_true, decide_eq_true_eq, List.all_eq_true, beq_iff_eq] at hrect
+    have hlen : ∀ r ∈ r0 :: rs, r.2.length = r0.2.length := by
+      intro r hr
+      cases hr with
+      | head => rfl
+      | tail _ hr => exact hrect.2 r hr
+    refine ⟨by simp, r0.2.length, hrect.1, ?_, hdist⟩
+    intro r hr
+    have hn := (List.all_eq_true.mp hnames) r hr
+    simp only [Bool.and_eq_true, Bool.not_eq_true', List.all_eq_true] at hn
+    have hne : r.1 ≠ [] := by
+      intro e; rw [e] at hn; simp at hn
+    refine ⟨⟨hne, fun b hb => ph_name_byte b (hn.2 b hb)⟩, ?_, ?_, hlen r hr⟩
+    · intro hs
+      cases hstrict with
+      | inl h => rw [hs] at h; cases h
+      | inr h => simpa using (List.all_eq_true.mp h) r hr
+    · intro b hb
+      apply ph_residue_byte
+      simp only [residuesOk, Bool.or_eq_true, List.all_eq_true] at hres
+      cases hres with
+      | inl h1 => left; simpa using h1 r hr b hb
+      | inr h1 => right; simpa using h1 r hr b hb
+
+/-- **Phylip round trip, every line width and group width** (`line`, `block` > 0; Go: 60 and 10, the alignment
+length with `oneline`, the line width with `noblock`), strict and relaxed name column, every duplicate-name
+policy, auto-detected alphabet: parsing the blocks the writer lays out gives back the same names in the same
+order, the same residues, the same length and the detected alphabet.  `af` = "the parser allocates its row
+tables from the header count" (`Gen.FmtFacts.phylip_allocates_from_header`, false since the repair): with it
+the count must stay below the band where `make` is no longer prompt.  The counts must fit Go's `int64`
+(`strconv.ParseInt` of the header) — no Go slice is longer. -/
+theorem roundtrip_phylip_widths (af strict : Bool) (line block : Nat) (hl : 0 < line) (hb : 0 < block)
+    (o : POpts) (hs : o.strict = strict) (ho : normAlphabet o.alphabet = 2) (rows : List XRow)
+    (h : reprPhylip strict rows = true)
+    (hsize : rows.length ≤ 9223372036854775807 ∧ ∀ r ∈ rows, r.2.length ≤ 9223372036854775807)
+    (halloc : af = false ∨ rows.length < 134217728) :
+    ∃ L : Nat, 1 ≤ L ∧ (∀ r ∈ rows, r.2.length = L) ∧
+      Phylip.parse af o (writeLB strict line block L rows) =
+        .ok (some ⟨autoAlphabet (rows.map (·.2)), L, rows⟩) := by
+  obtain ⟨hne, L, hL1, hok, hdist⟩ := ph_repr_rows strict rows h
+  have hlen : ∀ r ∈ rows, r.2.length = L := fun r hr => (hok r hr).len
+  have hLmax : L ≤ 9223372036854775807 := by
+    cases rows with
+    | nil => exact absurd rfl hne
+    | cons r rs => rw [← hlen r (by simp)]; exact hsize.2 r (by simp)
+  exact ⟨L, hL1, hlen, parse_written af strict o hs ho line block L hl hb hL1 hLmax rows hne hsize.1 halloc hok hdist⟩
+
+/-- **Phylip round trip** for the writer as it is: all 8 combinations of `strict` / `oneline` / `noblock`
+(interleaved blocks of `PHYLIP_LINE` = 60 residues in groups of `PHYLIP_BLOCK` = 10, one line per row, one
+group per line), every representable alignment (any number of rows, any length — in particular every length
+around the multiples of 10 and 60), every duplicate-name policy, auto-detected alphabet. -/
+theorem roundtrip_phylip (af strict oneline noblock : Bool) (o : POpts) (hs : o.strict = strict)
+    (ho : normAlphabet o.alphabet = 2) (rows : List XRow) (h : reprPhylip strict rows = true)
+    (hsize : rows.length ≤ 9223372036854775807 ∧ ∀ r ∈ rows, r.2.length ≤ 9223372036854775807)
+    (halloc : af = false ∨ rows.length < 134217728) :
+    ∃ L : Nat, 1 ≤ L ∧ (∀ r ∈ rows, r.2.length = L) ∧
+      Phylip.parse af o (Phylip.write strict oneline noblock rows) =
+        .ok (some ⟨autoAlphabet (rows.map (·.2)), L, rows⟩) := by
+  obtain ⟨hne, L, hL1, hok, _⟩ := ph_repr_rows strict rows h
+  have hlen : ∀ r ∈ rows, r.2.length = L := fun r hr => (hok r hr).len
+  have hline : 0 < (if oneline then L else Gen.c_PHYLIP_LINE.toNat) := by
+    split
+    · exact hL1
+    · decide
+  have hblock : 0 < (if noblock then (if oneline then L else Gen.c_PHYLIP_LINE.toNat) else Gen.c_PHYLIP_BLOCK.toNat) := by
+    split
+    · exact hline
+    · decide
+  obtain ⟨L', hL1', hlen', hp⟩ := roundtrip_phylip_widths af strict _ _ hline hblock o hs ho rows h hsize halloc
+  have hLL : L' = L := by
+    cases rows with
+    | nil => exact absurd rfl hne
+    | cons r rs => rw [← hlen r (by simp), ← hlen' r (by simp)]
+  subst hLL
+  exact ⟨L', hL1', hlen', by rw [write_eq strict oneline noblock rows L' hne hlen]; exact hp⟩
+
+/-- non-vacuity: a strict-representable protein alignment with a gap, a numeric name and a 10-byte name -/
+example : reprPhylip true [([49, 50], [65, 82, 45, 76]), ([97, 98, 99, 100, 101, 102, 103, 104, 105, 106], [97, 69, 68, 42])] = true := by
+  decide
+
+/-- the theorem's conclusion evaluated on that alignment (strict names, interleaved layout) -/
+example : Phylip.parse false ⟨true, 0, 2⟩ (Phylip.write true false false
+      [([49, 50], [65, 82, 45, 76]), ([97, 98, 99, 100, 101, 102, 103, 104, 105, 106], [97, 69, 68, 42])]) =
+    .ok (some ⟨AMINOACIDS, 4, [([49, 50], [65, 82, 45, 76]), ([97, 98, 99, 100, 101, 102, 103, 104, 105, 106], [97, 69, 68, 42])]⟩) := by
+  decide
+
+end PhylipRT
 
 end Gv.Props.C02
